@@ -5,6 +5,8 @@ import (
 	"fmt"
 	"strconv"
 
+	"github.com/golang/protobuf/proto"
+
 	"github.com/openacid/slim/encode"
 	"github.com/openacid/slim/index"
 	"github.com/openacid/slim/trie"
@@ -20,6 +22,10 @@ type LCase struct {
 	QMax    int
 	Exh     bool
 	R       *RNG
+	// Golden: a stream of exactly this case persisted by the pinned release;
+	// the case is then run under the golden option set only, with the pinned
+	// stream as an additional instance
+	Golden *GoldenCase
 }
 
 func hexKeys(keys []string, max int) []string {
@@ -138,7 +144,7 @@ func genBig(r *RNG, j int) KeySet {
 }
 
 func (p *lprofile) numCases(tier string) int {
-	n := len(directedKeySets())*2 + numBig(tier)
+	n := len(directedKeySets())*2 + numBig(tier) + len(loadGolden())
 	if p.overLimit {
 		n += 4
 	}
@@ -188,6 +194,30 @@ func (p *lprofile) caseAt(ctx *Ctx, idx int) (*LCase, *ExhSpace, [][]int) {
 		return &LCase{Family: ks.Family, Keys: ks.Keys, Vals: genVals(r, kind, len(ks.Keys), []int{0, 1, 4}[r.Intn(3)]), QMax: p.qmax, R: r}, nil, nil
 	}
 	idx -= numBig(ctx.Tier)
+	if gs := loadGolden(); idx < len(gs) {
+		g := &gs[idx]
+		ok := true
+		if p.kinds != nil {
+			ok = false
+			for _, k := range p.kinds {
+				if k == g.Vals.Kind {
+					ok = true
+				}
+			}
+		}
+		if p.noNone && g.Vals.Kind == "none" {
+			ok = false
+		}
+		if p.onlyCompl && !g.Opt.Complete() {
+			ok = false
+		}
+		if !ok {
+			return &LCase{Family: "golden:not-applicable-to-this-property", Keys: nil, Vals: genVals(r, "none", 0, 0), QMax: p.qmax, R: r}, nil, nil
+		}
+		return &LCase{Family: "golden", Keys: g.Keys, Vals: g.Vals, QMax: p.qmax, R: r, Golden: g}, nil, nil
+	} else {
+		idx -= len(gs)
+	}
 	if p.usesExhaustive() {
 		nc := exhNumChunks(p.exhTier(ctx.Tier))
 		if idx < nc {
@@ -503,6 +533,16 @@ func (e *lookupEnv) oracleC10(qs []string, keep bool, strict bool) []qres {
 		if !strict {
 			continue
 		}
+		// values handed out by a copying encoder belong to the caller: what it
+		// does to them must not come back through a later answer
+		var scribbled [][]byte
+		if e.lc.Vals.Kind == "cpbytes" {
+			for _, x := range []interface{}{v, rv, lv, ev, rrv} {
+				if b, ok := x.([]byte); ok && len(b) > 0 {
+					scribbled = append(scribbled, b)
+				}
+			}
+		}
 		if found {
 			nFound++
 			if _, eq := m.Find(q); !eq {
@@ -547,6 +587,12 @@ func (e *lookupEnv) oracleC10(qs []string, keep bool, strict bool) []qres {
 					return out
 				}
 			}
+		}
+		for _, b := range scribbled {
+			for i := range b {
+				b[i] ^= 0xa5
+			}
+			e.ctx.Count("returned_values_scribbled", 1)
 		}
 	}
 	e.ctx.Count("queries", int64(len(qs)))
@@ -740,12 +786,16 @@ func runLookupCase(ctx *Ctx, prop string, lc *LCase, caseIdx int) {
 		ok  bool
 	}
 	results := make([]perOpt, 16)
+	resultsLoaded := make([]perOpt, 16)
 	opts := allOptSets()
 	sampled := false
 	var prevEnv *lookupEnv
 	for oi, o := range opts {
 		ctx.Beat()
 		if p.onlyCompl && !o.Complete() {
+			continue
+		}
+		if lc.Golden != nil && o != lc.Golden.Opt {
 			continue
 		}
 		m := models[o.D]
@@ -803,6 +853,16 @@ func runLookupCase(ctx *Ctx, prop string, lc *LCase, caseIdx int) {
 				insts = append(insts, Inst{"proto-loaded", pl})
 			}
 		}
+		if lc.Golden != nil {
+			gl, err, pv, stack := loadTrie(enc, lc.Golden.Stream)
+			if pv != nil || err != nil {
+				env.inst = "golden-loaded"
+				env.viol("golden-stream-does-not-load", "", map[string]interface{}{"golden": lc.Golden.Name, "panic": fmt.Sprint(pv), "error": fmt.Sprint(err), "stack": stack,
+					"what": "a current-format stream persisted by the pinned release no longer loads"})
+			} else {
+				insts = append(insts, Inst{"golden-loaded", gl})
+			}
+		}
 		// an instance that held another trie (and answered reads) before a direct Unmarshal
 		if !lc.Exh && (caseIdx+oi)%4 == 1 {
 			var oldVals interface{}
@@ -815,6 +875,21 @@ func runLookupCase(ctx *Ctx, prop string, lc *LCase, caseIdx int) {
 				env.viol("load-failed", "", map[string]interface{}{"panic": fmt.Sprint(pv), "error": fmt.Sprint(err), "stack": stack})
 			} else {
 				insts = append(insts, Inst{"reloaded", rl})
+			}
+		}
+		// a by-value copy of a SlimTrie (index.SlimIndex embeds one that way) is
+		// a snapshot: reloading or resetting the original must not reach it
+		if !lc.Exh && (caseIdx+oi)%4 == 2 {
+			if orig, err, pv, _ := loadTrie(enc, stream); err == nil && pv == nil {
+				snap := *orig
+				try(func() {
+					other, _ := trie.NewSlimTrie(enc, []string{"p", "q"}, nil)
+					ob, _ := other.Marshal()
+					orig.Unmarshal(ob)
+					proto.Unmarshal(ob, orig)
+					orig.Reset()
+				})
+				insts = append(insts, Inst{"snapshot-copy", &snap})
 			}
 		}
 		// the same index in historical layouts (fixed-size values only): 0.5.10
@@ -864,9 +939,11 @@ func runLookupCase(ctx *Ctx, prop string, lc *LCase, caseIdx int) {
 			case "C10":
 				env.oracleC10(qs, false, true)
 			case "C13":
-				res := env.oracleC10(qs, ii == 0, false)
+				res := env.oracleC10(qs, ii <= 1, false)
 				if ii == 0 {
 					results[oi] = perOpt{res, res != nil}
+				} else if ii == 1 {
+					resultsLoaded[oi] = perOpt{res, res != nil}
 				}
 			case "C14":
 				env.oracleC14(qs)
@@ -874,7 +951,7 @@ func runLookupCase(ctx *Ctx, prop string, lc *LCase, caseIdx int) {
 				s := env.oracleC18()
 				if ii == 0 {
 					stat0 = s
-				} else if in.Name == "legacy-3sec-loaded" {
+				} else if in.Name == "legacy-3sec-loaded" || in.Name == "golden-loaded" {
 					// another structure (no 257-bit nodes): only the key count carries over
 					if s != nil && stat0 != nil && s.KeyCnt != stat0.KeyCnt {
 						env.viol("stat-keycnt-legacy", "", map[string]interface{}{"fresh": stat0.KeyCnt, in.Name: s.KeyCnt})
@@ -909,7 +986,9 @@ func runLookupCase(ctx *Ctx, prop string, lc *LCase, caseIdx int) {
 	}
 
 	if prop == "C13" {
-		oracleC13(ctx, lc, qs, models, opts, func(i int) ([]qres, bool) { return results[i].res, results[i].ok })
+		oracleC13(ctx, lc, qs, models, opts, "fresh", func(i int) ([]qres, bool) { return results[i].res, results[i].ok })
+		// the relation is about tries, however they came to be: the loaded ones too
+		oracleC13(ctx, lc, qs, models, opts, "loaded", func(i int) ([]qres, bool) { return resultsLoaded[i].res, resultsLoaded[i].ok })
 	}
 }
 
@@ -968,7 +1047,7 @@ func commonPrefixBits(a, b string) int {
 }
 
 // oracleC13: metamorphic relation across option sets with equal DedupValue.
-func oracleC13(ctx *Ctx, lc *LCase, qs []string, models map[bool]*Model, opts []OptSet, get func(int) ([]qres, bool)) {
+func oracleC13(ctx *Ctx, lc *LCase, qs []string, models map[bool]*Model, opts []OptSet, instKind string, get func(int) ([]qres, bool)) {
 	var nImpl int64
 	for mi, more := range opts {
 		rm, ok := get(mi)
@@ -982,6 +1061,7 @@ func oracleC13(ctx *Ctx, lc *LCase, qs []string, models map[bool]*Model, opts []
 			if more.Complete() && rm[qi].found != eq {
 				d := lc.describe()
 				d["opt"] = more.String()
+				d["instances"] = instKind
 				d["query_hex"] = hexq(q)
 				d["found"] = rm[qi].found
 				d["retained"] = eq
@@ -1014,6 +1094,7 @@ func oracleC13(ctx *Ctx, lc *LCase, qs []string, models map[bool]*Model, opts []
 					if !rl[qi].found || !sameVal(rl[qi].val, rm[qi].val) {
 						d := lc.describe()
 						d["query_hex"] = hexq(q)
+						d["instances"] = instKind
 						d["more_info_opt"] = more.String()
 						d["less_info_opt"] = less.String()
 						d["more"] = []interface{}{show(rm[qi].val), rm[qi].found}
@@ -1147,7 +1228,7 @@ func lookupCheckDef(prop string, rule string, gates func(tier string, m *Merged)
 	if p.raceCases > 0 {
 		def.RaceCases = func(tier string) int {
 			if tier == "thorough" {
-				return len(directedKeySets())*2 + numBig(tier) + p.raceCases
+				return len(directedKeySets())*2 + numBig(tier) + len(loadGolden()) + p.raceCases
 			}
 			return 0
 		}
@@ -1186,7 +1267,7 @@ var _ = encode.I32{}
 func init() {
 	commonShapes := []string{"shape:with_257bit_nodes", "shape:with_257bit_below_root", "shape:with_17bit_nodes", "shape:with_short_nodes",
 		"shape:with_straddling_short", "shape:with_end_of_key_label", "shape:with_step_ge256", "shape:with_halfbyte_prefix", "shape:with_aligned_prefix",
-		"instances:fresh", "instances:loaded", "instances:proto-loaded", "instances:reloaded", "instances:legacy-0.5.10-loaded", "instances:legacy-3sec-loaded", "shape:nodes_gt_65535", "shape:with_more_than_257_big_nodes"}
+		"instances:fresh", "instances:loaded", "instances:proto-loaded", "instances:reloaded", "instances:golden-loaded", "instances:snapshot-copy", "instances:legacy-0.5.10-loaded", "instances:legacy-3sec-loaded", "shape:nodes_gt_65535", "shape:with_more_than_257_big_nodes"}
 	register(lookupCheckDef("C01",
 		"case = (key list, value list+encoder); each case is run under all 16 option sets on fresh, Unmarshal-loaded and (rotating) proto.Unmarshal-loaded, reloaded (direct Unmarshal into an instance that held another trie and answered reads) and legacy-layout-loaded (0.5.10/0.5.11, three-section; fixed-size values) instances; oracle: Get/GetID on every retained key; non-trivial = at least 2 retained keys (so at least one inner node); distinct by hash of keys and encoded values",
 		shapeGates(append([]string{"shape:with_varlen_leaves", "shape:with_empty_leaves", "shape:with_single_label_inner", "cases:with_dropped_keys"}, commonShapes...)...)))
@@ -1202,7 +1283,7 @@ func init() {
 		shapeGates(append([]string{"shape:with_single_label_inner", "cases:with_dropped_keys"}, commonShapes...)...)))
 	c10 := lookupCheckDef("C10",
 		"case = (key list, value list or none) x 16 option sets x fresh/loaded; oracle on every query of Q(K): no panic, returns; Get/GetID/Search.eq agree; Get found => RangeGet found with the same value; every reported value is one of the supplied values; non-trivial = at least 2 retained keys",
-		shapeGates(append([]string{"queries:false_positive", "valkind:none", "family:directed:empty", "family:directed:single-1"}, commonShapes...)...))
+		shapeGates(append([]string{"queries:false_positive", "valkind:none", "returned_values_scribbled", "family:directed:empty", "family:directed:single-1"}, commonShapes...)...))
 	c10.HangIsViolation = true
 	c10.MemoryIsViolation = true
 	c10.HangSeconds = 120
@@ -1212,5 +1293,5 @@ func init() {
 		shapeGates("implications_checked", "shape:with_257bit_nodes", "shape:with_short_nodes", "shape:with_halfbyte_prefix", "family:directed:run-34000-halfbytes")))
 	register(lookupCheckDef("C14",
 		"case = (key list, full-range integer values of width 8/16/32/64) x 16 option sets x fresh/loaded; oracle: GetI8/16/32/64(q) == Get(q) in found flag and number for every query of Q(K); non-trivial = at least 2 retained keys",
-		shapeGates("valkind:i8", "valkind:i16", "valkind:i32", "valkind:i64", "cases:with_dropped_keys", "queries:found", "instances:loaded", "instances:reloaded", "instances:legacy-0.5.10-loaded", "instances:legacy-3sec-loaded")))
+		shapeGates("valkind:i8", "valkind:i16", "valkind:i32", "valkind:i64", "cases:with_dropped_keys", "queries:found", "instances:loaded", "instances:golden-loaded", "instances:reloaded", "instances:legacy-0.5.10-loaded", "instances:legacy-3sec-loaded")))
 }
